@@ -316,3 +316,115 @@ func c09Dao(c *core.Ctx) {
 	}
 	c.Floor("C09.dao", "store-backed DAO write methods in services/alert", n, 8)
 }
+
+// c09MatchScope: the match handler evaluates its expression with one scope that it keeps across events. An event must never
+// be judged with a value another event left in it: either the scope is reset before anything is set on every path that
+// evaluates (A), or the loop over the expression's variables sets each one from the event or leaves the function (B). One of
+// the two is enough; with neither, an event that lacks a tag the expression refers to is matched with the previous event's value.
+func c09MatchScope(c *core.Ctx) {
+	c.Rule("C09.matchscope", "A1: matchHandler.match never evaluates with a value of another event: the kept scope is Reset before anything is set on every evaluating path, or every variable of the expression is set from the event or the function is left")
+	sp := c.P.Pkg("services/alert")
+	if sp == nil {
+		c.Note("C09.matchscope: services/alert is not loaded in this run")
+		return
+	}
+	info := sp.TypesInfo
+	fn := c.Need("C09.matchscope", "services/alert", "matchHandler", "match")
+	if fn == nil {
+		return
+	}
+	isScope := func(e ast.Expr) bool { return an.FieldSel(info, e, "matchHandler", "scope") }
+	eng := &an.Engine{Prog: c.P,
+		TrackCall: func(call *ast.CallExpr, callee *types.Func) string {
+			if callee == nil {
+				return ""
+			}
+			if sel, ok := call.Fun.(*ast.SelectorExpr); ok && isScope(sel.X) {
+				switch callee.Name() {
+				case "Reset":
+					return "Reset"
+				case "Set", "SetDynamicFunc", "SetDynamicMethod":
+					return "Set"
+				}
+			}
+			if strings.HasPrefix(callee.Name(), "Eval") && len(call.Args) >= 1 && isScope(call.Args[0]) {
+				return "Eval"
+			}
+			return ""
+		}}
+	paths, err := eng.Run(fn)
+	if err != nil {
+		c.Undecided("C09.matchscope", "matchHandler.match", fn.Decl.Pos(), "%v", err)
+		return
+	}
+	evals, resetFirst := 0, true
+	for _, p := range paths {
+		if !p.Has("Eval") {
+			continue
+		}
+		evals++
+		first := ""
+		for _, e := range p.Events {
+			if e.Name == "Reset" || e.Name == "Set" {
+				first = e.Name
+				break
+			}
+		}
+		if first == "Set" || !p.Has("Reset") && p.Has("Set") {
+			resetFirst = false
+		}
+		if first == "" && !p.Has("Reset") {
+			// nothing set, nothing reset: a scope kept from the last event is evaluated as it is
+			resetFirst = false
+		}
+	}
+	if evals == 0 {
+		c.Undecided("C09.matchscope", "matchHandler.match", fn.Decl.Pos(), "no path evaluates the expression with the handler's scope")
+		return
+	}
+	// B: the loop over the variables
+	setOrLeave := false
+	ast.Inspect(fn.Decl.Body, func(n ast.Node) bool {
+		rs, ok := n.(*ast.RangeStmt)
+		if !ok || !an.FieldSel(info, rs.X, "matchHandler", "vars") {
+			return true
+		}
+		body := an.Effective(rs.Body.List)
+		if len(body) != 1 {
+			return true
+		}
+		is, ok := body[0].(*ast.IfStmt)
+		if !ok || is.Else == nil {
+			return true
+		}
+		sets := func(b *ast.BlockStmt) bool {
+			f := false
+			ast.Inspect(b, func(m ast.Node) bool {
+				if call, ok := m.(*ast.CallExpr); ok {
+					if sel, ok := call.Fun.(*ast.SelectorExpr); ok && sel.Sel.Name == "Set" && isScope(sel.X) {
+						f = true
+					}
+				}
+				return true
+			})
+			return f
+		}
+		leaves := func(b *ast.BlockStmt) bool {
+			l := an.Effective(b.List)
+			if len(l) == 0 {
+				return false
+			}
+			_, ok := l[len(l)-1].(*ast.ReturnStmt)
+			return ok
+		}
+		eb, ok := is.Else.(*ast.BlockStmt)
+		if !ok {
+			return true
+		}
+		if (sets(is.Body) || leaves(is.Body)) && (sets(eb) || leaves(eb)) {
+			setOrLeave = true
+		}
+		return true
+	})
+	c.Check(resetFirst || setOrLeave, "C09.matchscope", "matchHandler.match#fresh-values", fn.Decl.Pos(), "matchHandler.match evaluates its expression with the scope it keeps across events, without resetting the scope first on every path (reset first: %v) and without setting every variable of the expression from the event or leaving (set or leave: %v): an event that lacks a tag the expression refers to is judged with the value the previous event left in the scope — it is handed to a handler whose match condition it does not meet", resetFirst, setOrLeave)
+}
